@@ -15,7 +15,8 @@ import kdf, dumpgen
 THEOREMS = ["Kdf.Props.C11.pread_flat_rearranged", "Kdf.Props.C11.get_chunk_rearranged",
             "Kdf.Props.C11.scan_accepts", "Kdf.Props.C11.scan_terminates",
             "Kdf.Props.C11.hole_reads_zero", "Kdf.Props.C11.last_record_wins", "Kdf.Props.C11.other_record_keeps",
-            "Kdf.Props.C11.split_order_irrelevant", "Kdf.Props.C11.split_selects_window"]
+            "Kdf.Props.C11.split_order_irrelevant", "Kdf.Props.C11.split_selects_window",
+            "Kdf.Props.C11.scanE_ok_scan", "Kdf.Props.C11.scanE_eq_scan_of_no_eof", "Kdf.Props.C11.scanE_eof_refused"]
 PS = 4096
 WRAP = "-Wl,--wrap=_kdumpfile_priv_fcache_pread,--wrap=_kdumpfile_priv_flatmap_pread_flat"
 VOLATILE = ("file.set.", "file.fd", "file.description", "file.mmap_cache.", "file.read_cache.", "cache.hits", "cache.misses")
@@ -83,6 +84,10 @@ def parse_expect(blob):
         return "notimpl", None
     p, recs = 4096, []
     while True:
+        # a regular file has an end: a record header in a 4096-byte block wholly behind it cannot be read (block 0 excepted)
+        b = (p + 15) // 4096 * 4096
+        if b > 0 and b >= len(blob):
+            return "eof", None
         off, size = struct.unpack(">qq", at(p, 16))
         if off == -1:
             return "ok", recs
@@ -363,7 +368,7 @@ def run(R):
         o = impl[i]
         if m[0] == "fopen":
             c = cases[m[1]]
-            want = {"ok": "fopen ok flat", "plain": "fopen ok plain", "corrupt": "fopen corrupt -", "notimpl": "fopen notimpl -"}[c["status"]]
+            want = {"ok": "fopen ok flat", "plain": "fopen ok plain", "corrupt": "fopen corrupt -", "notimpl": "fopen notimpl -", "eof": "fopen eof -"}[c["status"]]
             kinds["fopen/" + c["status"]] = kinds.get("fopen/" + c["status"], 0) + 1
             if not o.startswith(want):
                 fails.append(("flattened stream (%s%s) opened as '%s', the format says '%s'" % (c["kind"], "/" + c["bad"] if c["bad"] else "", o[:80], want),
